@@ -405,8 +405,10 @@ def r02_5(chk, facts):
         chk.analysed(fn)
         g = C.CFG(fn['body'])
         loop_pushes = []
+        loop_body = None
         for x in A.walk_no_lambda(fn['body']):
             if x.get('k') == 'ForStmt':
+                loop_body = x.get('body')
                 loop_pushes = [c for c in A.walk_no_lambda(x.get('body')) if c.get('k') == 'CXXMemberCallExpr' and A.callee_name(c) == 'emplace_back']
         site = U.site(fn, 'dedupe loop')
         bad = None
@@ -415,12 +417,25 @@ def r02_5(chk, facts):
             n_ = g.node_of(c)
             ok = False
             for cond_ast, label, edge in (g.guards(n_) if n_ else []):
-                t = A.text(cond_ast)
-                cmp_ = None
-                s0 = A.strip(cond_ast)
-                if s0 is not None and s0.get('k') == 'CXXOperatorCallExpr' and s0.get('oop') in ('!=', '==') and '.name' in t and 'i - 1' in t.replace('i-1', 'i - 1'):
-                    if (s0['oop'] == '!=') == bool(label): ok = True
-            if not ok: bad = 'emplace_back in the loop is not under `item.name != items[i-1].name`'
+                s0 = A.strip(cond_ast, casts=True)
+                if s0 is None: continue
+                op = s0.get('oop') if s0.get('k') == 'CXXOperatorCallExpr' else (s0.get('op') if s0.get('k') == 'BinaryOperator' else None)
+                if op not in ('!=', '=='): continue
+                sides = (s0.get('args') or [s0.get('lhs'), s0.get('rhs')])[:2]
+                names = [A.strip(x, casts=True) for x in sides]
+                if len(names) != 2 or not all(x is not None and x.get('k') == 'MemberExpr' and x.get('n') == 'name' for x in names): continue
+                # the two elements compared: one is the predecessor of the other (an offset of one, directly or through a local alias)
+                def offsets(e, depth=0):
+                    out = []
+                    for y in A.walk(e):
+                        if y.get('k') == 'BinaryOperator' and y.get('op') in ('-', '+') and A.const(y.get('rhs')) == 1: out.append(y['op'])
+                        if y.get('k') == 'DeclRefExpr' and depth < 2:
+                            d = next((v for v in A.walk_no_lambda(loop_body) if v.get('k') == 'VarDecl' and v.get('id') == y.get('id') and v.get('init') is not None), None)
+                            if d is not None: out += offsets(d['init'], depth + 1)
+                    return out
+                o1, o2 = offsets(names[0].get('base')), offsets(names[1].get('base'))
+                if sorted(o1 + o2) == ['-'] and (op == '!=') == bool(label): ok = True
+            if not ok: bad = 'emplace_back in the loop is not under a comparison `name != name of the preceding element`'
         if bad: chk.fail('R02.5', site, fn['file'], fn['l'], bad, None, fn['q'])
         else: chk.ok('R02.5', site, {'function': fn['q'], 'guard': 'name != predecessor name'})
 
